@@ -207,6 +207,112 @@ Example C08_nonvacuous :
   = [("combined_a_b_c", 3); ("x", 1); ("d", 1); ("cav", 2); ("combined_e", 1)].
 Proof. vm_compute. reflexivity. Qed.
 
+(** ---- Finding F28 and its repair: the length of an empty segment.
+    Before the repair Segment.length was `reduce(torch.add, lengths)` ([elen_pinned]: None where the
+    code raised TypeError); the repaired code is `reduce(torch.add, lengths, torch.tensor(0.0))`
+    ([elen_fixed]).  The length theorems above are about the total sum [elen]; the theorems below say
+    that this sum IS what the repaired code returns, for every lattice -- empty, holding empty
+    sub-segments, or filtered down to nothing -- and what the code before the repair did instead. *)
+Section C08_F28.
+Variables (M B E L Len : Type) (one : M) (mul : M -> M -> M) (app : M -> B -> B) (en : B -> E).
+Variables (skip : L -> bool) (tmap : L -> E -> M) (ltrack : L -> B -> B) (lname : L -> string).
+Variables (llen : L -> Len) (lzero : Len) (ladd : Len -> Len -> Len).
+Variable mkctm : M -> Len -> string -> L.
+Variables (lmarker lhas_active lactive : L -> bool) (len_anypos len_allzero : Len -> bool).
+Variable mkdrift : Len -> string -> L.
+Hypothesis ladd_0_l : forall x, ladd lzero x = x.
+Hypothesis ladd_0_r : forall x, ladd x lzero = x.
+Hypothesis ladd_assoc : forall x y z, ladd (ladd x y) z = ladd x (ladd y z).
+Hypothesis ctm_len : forall m len nm, llen (mkctm m len nm) = len.
+Hypothesis marker_len : forall l, lmarker l = true -> llen l = lzero.
+Hypothesis drift_len : forall len nm, llen (mkdrift len nm) = len.
+
+Notation Len_of := (elen llen lzero ladd).
+Notation Length_fixed := (elen_fixed L Len llen lzero ladd).     (* Segment.length after the repair (None: raises) *)
+Notation Length_pinned := (elen_pinned L Len llen ladd).         (* Segment.length before the repair (None: raises) *)
+
+(* the repaired Segment.length returns for EVERY element tree, and returns the sum of the leaf lengths *)
+Theorem C08_length_fixed_total : forall e : elem L, Length_fixed e = Some (Len_of e).
+Proof. exact (elen_fixed_total L Len llen lzero ladd). Qed.
+
+(* in particular the empty segment has length zero *)
+Theorem C08_empty_segment_length_fixed : forall n, Length_fixed (Seg n []) = Some lzero.
+Proof. exact (fun n => eq_refl). Qed.
+
+(* before the repair: no length exactly for the trees that hold an empty segment, the same sum elsewhere *)
+Theorem C08_length_pinned_spec : forall e : elem L,
+  Length_pinned e = if has_empty L e then None else Some (Len_of e).
+Proof. exact (elen_pinned_spec L Len llen lzero ladd ladd_0_l). Qed.
+
+(* the repair changes no length that the code returned before *)
+Theorem C08_length_repair_conservative : forall (e : elem L) (x : Len),
+  Length_pinned e = Some x -> Length_fixed e = Some x.
+Proof. exact (elen_repair_conservative L Len llen lzero ladd ladd_0_l). Qed.
+
+(* the four transformations keep the repaired length; no side condition on the lattice (it may be empty, hold
+   empty sub-segments, and the result may be empty) *)
+Theorem C08_merged_length_fixed : forall n (ex : list string) (es : list (elem L)) (b : B),
+  Length_fixed (Seg n (merged one mul app en skip tmap ltrack lname llen lzero ladd mkctm ex es [] b))
+  = Length_fixed (Seg n es).
+Proof. exact (@merged_length_fixed M B E L Len one mul app en skip tmap ltrack lname llen lzero ladd mkctm
+                ladd_0_l ladd_0_r ladd_assoc ctm_len). Qed.
+
+Theorem C08_markers_removed_length_fixed : forall n (ex : list string) (es : list (elem L)),
+  Length_fixed (Seg n (markers_removed lname lmarker ex es)) = Length_fixed (Seg n es).
+Proof. exact (@markers_removed_length_fixed L Len lname llen lzero ladd lmarker ladd_0_l ladd_0_r ladd_assoc marker_len). Qed.
+
+Theorem C08_zero_length_removed_length_fixed : forall n (ex : list string) (es : list (elem L)),
+  (forall x, len_anypos x = false -> x = lzero) ->
+  Length_fixed (Seg n (zero_length_removed lname llen lzero ladd lhas_active lactive len_anypos ex es))
+  = Length_fixed (Seg n es).
+Proof. exact (@zero_length_removed_length_fixed L Len lname llen lzero ladd lhas_active lactive len_anypos
+                ladd_0_l ladd_0_r ladd_assoc). Qed.
+
+Theorem C08_as_drifts_length_fixed : forall n (ex : list string) (es : list (elem L)),
+  Length_fixed (Seg n (as_drifts lname llen lzero ladd lhas_active lactive len_allzero mkdrift ex es))
+  = Length_fixed (Seg n es).
+Proof. exact (@as_drifts_length_fixed L Len lname llen lzero ladd lhas_active lactive len_allzero mkdrift
+                ladd_0_l ladd_0_r ladd_assoc drift_len). Qed.
+
+(* a marker filter that removes every element: the empty result has length zero, and that IS the original's length *)
+Theorem C08_all_markers_removed_length_fixed : forall n (ex : list string) (es : list (elem L)),
+  markers_removed lname lmarker ex es = [] ->
+  Length_fixed (Seg n (markers_removed lname lmarker ex es)) = Some lzero /\ Length_fixed (Seg n es) = Some lzero.
+Proof. exact (@all_markers_removed_length_fixed L Len lname llen lzero ladd lmarker ladd_0_l ladd_0_r ladd_assoc marker_len). Qed.
+
+(* F28, the code before the repair: a lattice of one marker has a length, the marker-free lattice has none *)
+Theorem C08_length_pinned_refuted : forall n (m : L), lmarker m = true ->
+  Length_pinned (Seg n [Leaf m]) = Some (llen m) /\
+  Length_pinned (Seg n (markers_removed lname lmarker [] [Leaf m])) = None.
+Proof. exact (@length_pinned_refuted L Len lname llen ladd lmarker). Qed.
+
+(* ... and a lattice holding an empty sub-segment anywhere at top level had none to begin with *)
+Theorem C08_length_pinned_empty_subsegment_refuted : forall n n' (es1 es2 : list (elem L)),
+  Length_pinned (Seg n (es1 ++ Seg n' [] :: es2)) = None.
+Proof. exact (@length_pinned_empty_subsegment_refuted L Len llen lzero ladd ladd_0_l). Qed.
+End C08_F28.
+
+(* the integer instance run against the repaired implementation: merging and the drift replacement keep the
+   repaired length of every integer lattice *)
+Theorem C08_Z_lengths_fixed : forall n ex es b,
+  zlen_fixed (Seg n (zmerged ex es [] b)) = zlen_fixed (Seg n es) /\
+  zlen_fixed (Seg n (zas_drifts ex es)) = zlen_fixed (Seg n es).
+Proof. exact zlengths_fixed. Qed.
+
+(* non-vacuity: two markers around an empty sub-segment.  Before the repair the lattice has no length; after it the
+   length is 0, the merged lattice is one CustomTransferMap of length 0 named after all three, and the marker /
+   zero-length filters leave [empty sub-segment] / nothing, of length 0 *)
+Example C08_F28_nonvacuous :
+  let mk nm := Leaf (mkleaf nm 0 KMarker false false) in
+  let es := [mk "m1"; Seg "sub" []; mk "m2"] in
+  let b := Parts [mk7 1 2 0 1 0 1 1] 3 [1] [1] in
+  zlen_pinned (Seg "s" es) = None /\ zlen_fixed (Seg "s" es) = Some 0 /\
+  map (fun e => (zename e, zlen_fixed e)) (zmerged [] es [] b) = [("combined_m1_sub_m2", Some 0)] /\
+  zmarkers_removed [] es = [Seg "sub" []] /\ zlen_fixed (Seg "s" (zmarkers_removed [] es)) = Some 0 /\
+  zzero_removed [] es = [] /\ zlen_fixed (Seg "s" (zzero_removed [] es)) = Some 0 /\
+  zas_drifts [] es = es.
+Proof. vm_compute. repeat split; reflexivity. Qed.
+
 Print Assumptions C08_merged_track.
 Print Assumptions C08_merged_length.
 Print Assumptions C08_merged_keeps_excepted.
@@ -229,3 +335,16 @@ Print Assumptions C08_zero_length_removed_refuted.
 Print Assumptions C08_replaceable_contract_refuted.
 Print Assumptions C08_as_drifts_refuted.
 Print Assumptions C08_nonvacuous.
+Print Assumptions C08_length_fixed_total.
+Print Assumptions C08_empty_segment_length_fixed.
+Print Assumptions C08_length_pinned_spec.
+Print Assumptions C08_length_repair_conservative.
+Print Assumptions C08_merged_length_fixed.
+Print Assumptions C08_markers_removed_length_fixed.
+Print Assumptions C08_zero_length_removed_length_fixed.
+Print Assumptions C08_as_drifts_length_fixed.
+Print Assumptions C08_all_markers_removed_length_fixed.
+Print Assumptions C08_length_pinned_refuted.
+Print Assumptions C08_length_pinned_empty_subsegment_refuted.
+Print Assumptions C08_Z_lengths_fixed.
+Print Assumptions C08_F28_nonvacuous.
